@@ -192,10 +192,16 @@ def st_filter_kwargs(draw, band, allow_none=True):
         return None
     if kind == 'empty':
         return {}
+    extras = {}
+    if draw(st.integers(0, 5)) == 0:
+        # filter_kwargs is documented as keyword arguments for neurodsp's filter_signal: other (default-valued) keywords than the
+        # filter length may ride along
+        extras = draw(st.sampled_from([{'filter_type': 'fir'}, {'print_transitions': False}, {'plot_properties': False},
+                                       {'filter_type': 'fir', 'print_transitions': False}]))
     if kind == 'n_cycles':
-        return {'n_cycles': draw(st.sampled_from([1, 2, 3, 3, 4, 5, 7]))}
+        return dict({'n_cycles': draw(st.sampled_from([1, 2, 3, 3, 4, 5, 7]))}, **extras)
     m = draw(st.one_of(st.sampled_from([1.0, 2.0, 3.0, 4.5]), _f(1.0, 6.0)))
-    return {'n_seconds': m / f_lo}
+    return dict({'n_seconds': m / f_lo}, **extras)
 
 
 def filt_len_of(band, fk):
@@ -291,7 +297,7 @@ def st_variant(draw):
     """How the SAME argument values are handed over: the result must not depend on it."""
     if draw(st.integers(0, 2)) > 0:
         return None
-    return {'sig_view': draw(st.sampled_from(['plain', 'readonly', 'strided', 'plain'])),
+    return {'sig_view': draw(st.sampled_from(['plain', 'readonly', 'strided', 'plain', 'byteswapped'])),
             'f_range': draw(st.sampled_from(['tuple', 'list'])),
             'np_scalars': draw(st.booleans()), 'reverse_keys': draw(st.booleans())}
 
@@ -469,6 +475,9 @@ def call_args(case, x):
         buf = np.zeros(2 * len(x), dtype=x.dtype)
         buf[::2] = x
         sig = buf[::2]
+    elif v.get('sig_view') == 'byteswapped' and x.dtype.kind == 'f':
+        # the same values in non-native byte order, as np.fromfile / np.memmap give for big-endian data files
+        sig = x.astype(x.dtype.newbyteorder('>'))
     fs = case['fs']
     if v.get('np_scalars'):
         fs = np.float64(fs)
